@@ -1094,7 +1094,8 @@ fn quote_from_trait(input: &DataType, ctx: &ImplContext, pre_init: Option<TokenS
 
 fn quote_try_from_trait(input: &DataType, ctx: &ImplContext, pre_init: Option<TokenStream>, init: TokenStream) -> TokenStream {
     let QuoteTraitParams { attr, impl_attr, inner_attr, dst, src, these_gens, those_gens, impl_gens, where_clause, r } = get_quote_trait_params(input, ctx);
-    let err_ty = &ctx.struct_attr.err_ty.as_ref().unwrap().path;
+    // the declared error type in full: its path and the generic arguments `TypePath` keeps apart
+    let err_ty = ctx.struct_attr.err_ty.as_ref().map(|x| { let (path, generics) = (&x.path, &x.generics); quote!(#path #generics) }).unwrap();
     quote! {
         #impl_attr
         impl #impl_gens ::core::convert::TryFrom<#r #src #those_gens> for #dst #these_gens #where_clause {
@@ -1140,7 +1141,8 @@ fn quote_into_trait(input: &DataType, ctx: &ImplContext, pre_init: Option<TokenS
 
 fn quote_try_into_trait(input: &DataType, ctx: &ImplContext, pre_init: Option<TokenStream>, init: TokenStream, post_init: Option<TokenStream>) -> TokenStream {
     let QuoteTraitParams { attr, impl_attr, inner_attr, dst, src, these_gens, those_gens, impl_gens, where_clause, r } = get_quote_trait_params(input, ctx);
-    let err_ty = &ctx.struct_attr.err_ty.as_ref().unwrap().path;
+    // the declared error type in full: its path and the generic arguments `TypePath` keeps apart
+    let err_ty = ctx.struct_attr.err_ty.as_ref().map(|x| { let (path, generics) = (&x.path, &x.generics); quote!(#path #generics) }).unwrap();
 
     let body = match post_init {
         Some(post_init) => quote! {
@@ -1187,7 +1189,8 @@ fn quote_into_existing_trait(input: &DataType, ctx: &ImplContext, pre_init: Opti
 
 fn quote_try_into_existing_trait(input: &DataType, ctx: &ImplContext, pre_init: Option<TokenStream>, init: TokenStream, post_init: Option<TokenStream>) -> TokenStream {
     let QuoteTraitParams { attr, impl_attr, inner_attr, dst, src, these_gens, those_gens, impl_gens, where_clause, r } = get_quote_trait_params(input, ctx);
-    let err_ty = &ctx.struct_attr.err_ty.as_ref().unwrap().path;
+    // the declared error type in full: its path and the generic arguments `TypePath` keeps apart
+    let err_ty = ctx.struct_attr.err_ty.as_ref().map(|x| { let (path, generics) = (&x.path, &x.generics); quote!(#path #generics) }).unwrap();
     quote! {
         #impl_attr
         impl #impl_gens o2o::traits::TryIntoExisting<#dst #those_gens> for #r #src #these_gens #where_clause {
